@@ -68,7 +68,7 @@ Fixpoint nset {A} (n : name) (a : A) (l : list (name * A)) : list (name * A) :=
 Fixpoint ndel {A} (n : name) (l : list (name * A)) : list (name * A) :=
   match l with
   | [] => []
-  | (k, a') :: r => if name_eqb n k then r else (k, a') :: ndel n r
+  | (k, a') :: r => if name_eqb n k then ndel n r else (k, a') :: ndel n r
   end.
 
 Fixpoint update {A} (i : nat) (f : A -> A) (l : list A) : list A :=
